@@ -7,6 +7,7 @@ import (
 	"time"
 
 	"github.com/ipfs/go-cid"
+	"github.com/ipld/go-ipld-prime/datamodel"
 	"github.com/ipld/go-ipld-prime/node/basicnode"
 
 	"github.com/ucan-wg/go-ucan/pkg/policy"
@@ -332,7 +333,30 @@ func c05TrueStatements() []policy.Constructor {
 		policy.GreaterThanOrEqual(".z", literal.Float(0)),
 		policy.LessThanOrEqual(".pz", literal.Float(math.Copysign(0, -1))),
 		policy.Not(policy.LessThan(".z", literal.Float(0))),
+		// indexes and slices on bytes, from either end
+		policy.Equal(".blob[-1]", literal.Int(254)),
+		policy.Equal(".blob[1]", literal.Int(2)),
+		policy.Equal(".blob[-4]", literal.Int(1)),
+		policy.Equal(".blob[-2:]", literal.Bytes([]byte{0x7f, 0xfe})),
+		policy.GreaterThan(".blob[-2]", literal.Int(126)),
+		// equality of values nested 70 and 200 levels deep (alternating lists and maps)
+		policy.Equal(".deep70", c05Deep(70)),
+		policy.Equal(".deep200", c05Deep(200)),
+		policy.Not(policy.Equal(".deep70", c05Deep(69))),
 	}
+}
+
+// c05Deep is a value nested n container levels deep (list, map, list, ...) around the integer 1.
+func c05Deep(n int) datamodel.Node {
+	var v datamodel.Node = nInt(1)
+	for i := 0; i < n; i++ {
+		if i%2 == 0 {
+			v = nList(v)
+		} else {
+			v = nMap(kv{"k", v})
+		}
+	}
+	return v
 }
 
 type c05PolCase struct {
@@ -346,7 +370,7 @@ func c05PolicySub() *engine.Sub {
 	stmts := c05TrueStatements()
 	return &engine.Sub{
 		Name: "satisfied-policy-universe",
-		Rule: "rule-conforming chains of 1..2 links (quick; 3 thorough) whose policies are drawn from " + fmt.Sprint(len(stmts)) + " statements that are true for the invocation's arguments under the classical reading - one per operator, selector form (field, nested field, index, negative index, slice, optional, iterator) and pattern feature (literal, prefix/suffix star, escapes without and with stars, escaped backslash), plus slices of a string holding a character outside the BMP and a combining mark (by character) and comparisons between the two floating-point zeros (one number); every such invocation must be allowed; non-trivial = all",
+		Rule: "rule-conforming chains of 1..2 links (quick; 3 thorough) whose policies are drawn from " + fmt.Sprint(len(stmts)) + " statements that are true for the invocation's arguments under the classical reading - one per operator, selector form (field, nested field, index, negative index, slice, optional, iterator) and pattern feature (literal, prefix/suffix star, escapes without and with stars, escaped backslash), plus slices of a string holding a character outside the BMP and a combining mark (by character) and comparisons between the two floating-point zeros (one number), indexes and slices on bytes from either end, equality of values nested 70 and 200 levels deep; every such invocation must be allowed; non-trivial = all",
 		Bound: func(t string) string {
 			return fmt.Sprintf("%d true statements per link, chains of 1..%d links, leaf policy of 1 or 2 statements", len(stmts), tierN(t, 2, 3))
 		},
@@ -402,7 +426,8 @@ func c05PolicySub() *engine.Sub {
 				invocation.WithArgument("x", 1), invocation.WithArgument("f", 1.5), invocation.WithArgument("y", "ab"), invocation.WithArgument("s", `a*b\c`),
 				invocation.WithArgument("l", []int{1, 2, 3}), invocation.WithArgument("m", map[string]string{"k": "v"}), invocation.WithArgument("e", []int{}),
 				invocation.WithArgument("r", "backup"+strings.Repeat("_", 60)+"v2.tar"), invocation.WithArgument("q", strings.Repeat("a", 400)+"b"),
-				invocation.WithArgument("t", "\U0001F600a\u0301bc"), invocation.WithArgument("z", math.Copysign(0, -1)), invocation.WithArgument("pz", 0.0), invocation.WithArgument("zl", []float64{math.Copysign(0, -1), 0}))
+				invocation.WithArgument("t", "\U0001F600a\u0301bc"), invocation.WithArgument("z", math.Copysign(0, -1)), invocation.WithArgument("pz", 0.0), invocation.WithArgument("zl", []float64{math.Copysign(0, -1), 0}),
+				invocation.WithArgument("blob", []byte{0x01, 0x02, 0x7f, 0xfe}), invocation.WithArgument("deep70", c05Deep(70)), invocation.WithArgument("deep200", c05Deep(200)))
 			if err != nil {
 				panic(err)
 			}
@@ -442,6 +467,7 @@ func C05() *engine.Check {
 			c04RealSubZ("real-clock-zone-west-completeness", "complete", 2, 3, time.FixedZone("verif-west", -11*3600), 2*time.Hour),
 			c04RealSubZ("real-clock-zone-east-completeness", "complete", 2, 3, time.FixedZone("verif-east", 13*3600+1800), 2*time.Hour),
 			c04RealEnvSub("real-clock-hostile-environment-completeness", "complete"),
+			clockSub("C05"),
 		},
 		Assumptions: []string{
 			"the completeness direction of the C01-C04 universes is charged here: whenever the reference says no rule is violated the implementation must allow",
